@@ -47,3 +47,12 @@ Theorem C19_diag_table_sound : forall tbl : list diag_site,
   forall d, In d tbl -> d_class d = Data -> d_in_print_routine d = false -> d_prov d = Public.
 Proof. exact diag_table_sound. Qed.
 Print Assumptions C19_diag_table_sound.
+
+(* print-call audit (wave 5): on ANY table for which the row predicate holds, every output call inside a print / trace /
+   format routine has a literal format with matching argument count, char strings for %s, no %n, and no constant-length
+   dump larger than the declared array *)
+Theorem C19_print_audit_sound : forall tbl : list print_call,
+  forallb print_call_ok tbl = true ->
+  forall c, In c tbl -> pc_fmt_literal c = true /\ pc_nargs_ok c = true /\ pc_str_ok c = true /\ pc_len c <> LenExceeds.
+Proof. exact print_audit_sound. Qed.
+Print Assumptions C19_print_audit_sound.
